@@ -301,7 +301,9 @@ class Translator:
     RES = ['ReH', 'ReE', 'ReHt', 'ReEt', 'ReHeff', 'ReEeff', 'ReHteff', 'ReEteff']
     VEC = ['ReH', 'ImH', 'ReE', 'ImE', 'ReHeff', 'ImHeff', 'ReEeff', 'ImEeff']
     AX = ['ReHt', 'ImHt', 'ReEt', 'ImEt', 'ReHteff', 'ImHteff', 'ReEteff', 'ImEteff']
-    CONDS = {'always': [], 'realCFFs': IMS, 'zeroCFFs': IMS + RES, 'zeroEFF': ['F1', 'F2'], 'zeroVec': VEC, 'zeroAx': AX}
+    EFFS = ['ReHeff', 'ImHeff', 'ReEeff', 'ImEeff', 'ReHteff', 'ImHteff', 'ReEteff', 'ImEteff']
+    CONDS = {'always': [], 'realCFFs': IMS, 'zeroCFFs': IMS + RES, 'zeroEFF': ['F1', 'F2'], 'zeroVec': VEC, 'zeroAx': AX,
+             'noEff': EFFS}
 
     def aR(self, f):
         return ('R', {c: f(c) for c in self.CONDS})
